@@ -30,6 +30,18 @@ CLAIMS = {
          "Decides: on every path of every function of sfilesys.go no return leaves a fid locked (except the inferred returns-locked helpers, exactly on success), no unlock of a lock not held; no blocking acquisition of a shared fid lock (Lock, getRef, delRef or callers) while a fid lock is held; every SFid.Ent/File/Mode access and every FileSys call on a fid's entry/file is made under that fid's lock or on an unpublished object.",
          "Not decided: linearizability of results, data races outside the SFid discipline, termination of FileSys calls. Trusted: sync.Mutex/sync.Map.",
          "§4 C14, §3 E6/E7a"),
+ "C04": ("SSA bounds/assertion obligations over the CHA decode scope discharged by linear-fact entailment (guards, loop invariants, make-length equalities, phi case split), allocation-bound rule, CHA panic reachability, error-propagation rule",
+         "Decides: every slice/index/make/unchecked-assertion obligation and encoding/binary Put precondition reachable from Codec.Unmarshal/DecodeDir holds on every path (narrow unsigned arithmetic is not assumed wrap-free); no explicit panic reachable; every wire-sized allocation is 16-bit sized (constant bound) or bounded on every feasible edge by the remaining input length, and every decoder is built over a reader with Len(); unknown type bytes yield an error; every error on the decode path is propagated.",
+         "Not decided: re-encode/decode stability (value level), termination (argued), allocations inside reflect/bytes. Trusted: encoding/binary.Read, io.ReadFull, reflect.",
+         "§4 C04, §3 E4/E4b/E4c"),
+ "C11": ("channel-operation enumeration with provenance classification (select wake-up rule), dominance/exit rules, CHA panic reachability, typestate/ownership results for Stop, dataflow rules for cancellation",
+         "Decides: every blocking channel op of the server connection involving a data channel is a select with <-conn.closed; conn.closed closed only under sync.Once, never sent on; every exit of the reader/writer loops closes the connection or is the <-closed case; per-request contexts derive from the connection context, cancel funcs are in the tag table before the handler starts, serve defers a cancel-all closure before its loop, table entries deleted only after cancel/on completion; handler.Stop called exactly once, after serve, on every return path, with serve's result; no explicit panic CHA-reachable from the server (size9p panics machine-checked dead); dispatcher bounds; session.Stop releases every fid through the unbind-lock-release helper.",
+         "Not decided: bounded time / fault timing, handlers ignoring cancellation. Open known finding: handler goroutines are not joined before Stop and bindings are not refused after it (D12, reproduced).",
+         "§4 C11, §3 E8/E13"),
+ "C12": ("channel-operation enumeration with provenance classification, exit-discipline (defer) rules, buffered-channel rule, CHA panic reachability, checked-assertion rule, bounds obligations on the inbound path",
+         "Decides: wake-up cases of every blocking select of the client transport by role (callers: transport.closed + own ctx; owner loop: shutdown + session ctx; reader: closed); owner closes transport.closed on every exit, reader starts shutdown on every exit, shutdown closed under sync.Once; plain sends only to per-request channels of capacity >= 1, at most one per iteration; replies delivered only on the found edge of the tag lookup; no explicit panic reachable from the client; every type assertion on peer data is comma-ok and its failure edge returns an error; failed request writes free the tag and are reported; inbound bounds obligations (shared with C03/C04).",
+         "Not decided: time bounds, partial frames after a write deadline, select fairness.",
+         "§4 C12, §3 E8"),
 }
 
 REASON_PENDING = "static check not built yet in this round (planned per DESIGN.md §4); not claimed until its rules are in place"
